@@ -119,6 +119,7 @@ def handleText (op : String) (args : List String) : Option String :=
   | "txt.total", [_entry, _h] => some "nopanic\tnopanic"
   | "txt.value", [_e, _t, _v] => some "ok\tok"
   | "txt.prog", [_e, _t] => some "ok\tok"
+  | "txt.astargs", [_s] => some "ok\tok"
   | _, _ => none
 
 end Candid.Driver
